@@ -1368,9 +1368,17 @@ class Epoch(object):
         # for dates after January 1st, 1972
         if tt2utc:
             if year >= 1972:
+                leap = Epoch.leap_seconds(year, month)
+                # In the first seconds of a month (in TT) the UTC date still
+                # belongs to the previous month: use its leap second count
+                if (day - 1.0) * DAY2SEC < 42.184 + leap - 0.5:
+                    if month > 1:
+                        leap = Epoch.leap_seconds(year, month - 1)
+                    else:
+                        leap = Epoch.leap_seconds(year - 1, 12)
                 deltasec += 32.184  # Difference between TT and TAI
                 deltasec += 10.0  # Difference between UTC and TAI in 1972
-                deltasec += Epoch.leap_seconds(year, month)
+                deltasec += leap
         else:  # Correction is NOT automatic
             if leap_seconds != 0.0:  # We apply provided leap seconds
                 if year >= 1972:
